@@ -178,7 +178,7 @@ def gen_items(ctx):
     for _ in range(ctx.pick(300, 10000)):
         a, b, c, d = rnd_big(), rnd_big(), rnd_big(), rnd_big()
         if b == 0 or d == 0:
-            add(f"fraction({ilit(a)}, 0)", Skip(), "fraction_zero_den")
+            add(f"fraction({ilit(a)}, 0)", Err(), "fraction_zero_den")
             continue
         fa, fb = Fraction(a, b), Fraction(c, d)
         A, B = f"fraction({ilit(a)}, {ilit(b)})", f"fraction({ilit(c)}, {ilit(d)})"
@@ -265,7 +265,7 @@ def run(ctx):
                    "(Python json / fractions / chr / civil-calendar algorithm); distinct = distinct expression texts",
            "samples": samples, "agreeing": ok, "round_trips_per_family": fams}
     return {"coverage": cov, "broken": None if ok > 0 and len(items) > 100 else "nothing agreed",
-            "assumptions": ["fraction(n, 0) is not specified", "Julian days below 0 are reported under their own signature family",
+            "assumptions": ["Julian days below 0 are reported under their own signature family",
                             "JSON numbers are compared as doubles"]}
 
 
